@@ -490,6 +490,18 @@ Lemma val_large_table :
   forallb (fun p => forallb (fun r => val_ok true (18446744073709551615 - r) p) (zrange 200)) (zrange 21) = true.
 Proof. vm_compute. reflexivity. Qed.
 
+Lemma tbl_small p r : In p (zrange 21) -> In r (zrange 1000) ->
+  val_ok true r p = true /\ val_ok false r p = true /\ val_ok false (18446744073709551615 - r) p = true.
+Proof.
+  intros Hp Hr. pose proof val_small_table as T. rewrite forallb_forall in T. specialize (T p Hp). rewrite forallb_forall in T.
+  specialize (T r Hr). cbv beta in T. apply andb_true_iff in T. destruct T as [T T3]. apply andb_true_iff in T. destruct T as [T1 T2]. auto.
+Qed.
+Lemma tbl_large p r : In p (zrange 21) -> In r (zrange 200) -> val_ok true (18446744073709551615 - r) p = true.
+Proof.
+  intros Hp Hr. pose proof val_large_table as T. rewrite forallb_forall in T. specialize (T p Hp). rewrite forallb_forall in T.
+  exact (T r Hr).
+Qed.
+
 Theorem C17_number_rendering_partial_thm : forall u raw prec,
   0 <= prec <= 20 ->
   (0 <= raw < 1000 \/ (u = false /\ 18446744073709551616 - 1000 <= raw < 18446744073709551616) \/
@@ -499,19 +511,13 @@ Proof.
   intros u raw prec HP HR.
   assert (V : val_ok u raw prec = true).
   { destruct HR as [HR|[[-> HR]|[-> HR]]].
-    - pose proof val_small_table as T. rewrite forallb_forall in T.
-      specialize (T prec (zrange_in 21 prec ltac:(lia))). rewrite forallb_forall in T.
-      specialize (T raw (zrange_in 1000 raw ltac:(lia))). apply andb_true_iff in T. destruct T as [T _].
-      apply andb_true_iff in T. destruct T as [T1 T2]. destruct u; assumption.
-    - pose proof val_small_table as T. rewrite forallb_forall in T.
-      specialize (T prec (zrange_in 21 prec ltac:(lia))). rewrite forallb_forall in T.
-      specialize (T (18446744073709551615 - raw) (zrange_in 1000 (18446744073709551615 - raw) ltac:(lia))).
-      replace (18446744073709551615 - (18446744073709551615 - raw)) with raw in T by lia.
-      apply andb_true_iff in T. destruct T as [_ T]. exact T.
-    - pose proof val_large_table as T. rewrite forallb_forall in T.
-      specialize (T prec (zrange_in 21 prec ltac:(lia))). rewrite forallb_forall in T.
-      specialize (T (18446744073709551615 - raw) (zrange_in 200 (18446744073709551615 - raw) ltac:(lia))).
-      replace (18446744073709551615 - (18446744073709551615 - raw)) with raw in T by lia. exact T. }
+    - destruct (tbl_small prec raw (zrange_in 21 prec ltac:(lia)) (zrange_in 1000 raw ltac:(lia))) as (A & B & C). destruct u; assumption.
+    - set (r := 18446744073709551615 - raw). assert (E : raw = 18446744073709551615 - r) by (unfold r; lia).
+      rewrite E. assert (Hr : 0 <= r < Z.of_nat 1000) by (unfold r; lia).
+      destruct (tbl_small prec r (zrange_in 21 prec ltac:(lia)) (zrange_in 1000 r Hr)) as (A & B & C). exact C.
+    - set (r := 18446744073709551615 - raw). assert (E : raw = 18446744073709551615 - r) by (unfold r; lia).
+      rewrite E. assert (Hr : 0 <= r < Z.of_nat 200) by (unfold r; lia).
+      exact (tbl_large prec r (zrange_in 21 prec ltac:(lia)) (zrange_in 200 r Hr)). }
   unfold val_ok in V. apply andb_true_iff in V. destruct V as [V1 V2]. apply list_eqb_true in V1. apply Z.leb_le in V2. auto.
 Qed.
 
